@@ -37,15 +37,15 @@ def record(scale=1):
     best = {}
     for pid, plan in PLAN.items():
         for (mode, profile, quick_n, thorough_n, extra) in plan.get("runs", []):
-            if mode in ("locks", "stress"):
+            if mode == "stress":
                 continue
             key = (mode, profile, tuple(extra))
             best[key] = max(best.get(key, 0), quick_n)
     jobs = []
     for (mode, profile, extra), total in sorted(best.items()):
         total *= scale
-        if mode in ("ack", "pure"):
-            jobs.append((mode, profile, 1, total if mode == "ack" else 1, os.path.join(REC, f"{mode}_{profile}"), list(extra)))
+        if mode in ("ack", "pure", "locks"):
+            jobs.append((mode, profile, 1, {"ack": total, "pure": 1, "locks": 400}[mode], os.path.join(REC, f"{mode}_{profile}"), list(extra)))
             continue
         per = 40
         for shard in range((total + per - 1) // per):
@@ -224,6 +224,20 @@ def main():
     for t in threads: t.join()
     shutil.rmtree(SCRATCH, ignore_errors=True)
     results.sort(key=lambda r: (r["file"], r["line"], r["old"], r["new"]))
+    triage_path = os.path.join(ROOT, "tools", "model_mutants_triage.json")
+    triage = json.load(open(triage_path)) if os.path.exists(triage_path) else []
+    for r in results:
+        if r["verdict"] == "survived":
+            for t in triage:
+                if t["file"] == r["file"] and t["old"] == r["old"] and t["new"] == r["new"] and t["text"] == r["text"]:
+                    r["triage"] = t["category"]; r["why"] = t["why"]; break
+            if "extra:" in r["label"] and "triage" not in r:
+                for t in triage:
+                    if t["file"] == r["file"] and t["old"] == r["old"]:
+                        r["triage"] = t["category"]; r["why"] = t["why"]; break
+    open_ = [r for r in results if r["verdict"] == "survived" and "triage" not in r]
+    print(f"{len(open_)} survivor(s) not covered by tools/model_mutants_triage.json:")
+    for r in open_: print("  OPEN", r["label"], "|", r["text"])
     summary = {v: sum(1 for r in results if r["verdict"] == v) for v in ("killed", "survived", "stillborn")}
     os.makedirs(MM, exist_ok=True)
     json.dump({"summary": summary, "results": results}, open(os.path.join(MM, "report.json"), "w"), indent=1)
